@@ -107,6 +107,7 @@ func runCase(t *testing.T, rt *rapid.T, p *profile) *caseResult {
 					}
 				}
 			}
+			watchdogWorld.Store(nil)
 			cleanup(w)
 			if w != nil {
 				res.script = w.script
@@ -118,6 +119,8 @@ func runCase(t *testing.T, rt *rapid.T, p *profile) *caseResult {
 			}
 		}()
 		w = newWorld(rt, cfg)
+		watchdogWorld.Store(w)
+		watchdogProgress.Add(1)
 		w.m.autoTick = rapid.Bool().Draw(rt, "autoTick")
 		w.m.fair = p.fair
 		w.invPaths = p.invPaths
